@@ -107,7 +107,7 @@ pub fn msg_class(msg: &str) -> String {
 /// Find the enclosing `fn` of `file:line` by scanning the source upwards.
 pub fn enclosing_fn(file: &str, line: u32) -> String {
     thread_local! { static CACHE: RefCell<HashMap<String, Vec<String>>> = RefCell::new(HashMap::new()); }
-    let path = if file.starts_with('/') { file.to_string() } else { format!("/repo/{file}") };
+    let path = if file.starts_with('/') { file.to_string() } else { format!("{}/{file}", repo_root()) };
     CACHE.with(|c| {
         let mut c = c.borrow_mut();
         let lines = c.entry(path.clone()).or_insert_with(|| std::fs::read_to_string(&path).map(|s| s.lines().map(str::to_string).collect()).unwrap_or_default());
@@ -132,11 +132,12 @@ pub fn enclosing_fn(file: &str, line: u32) -> String {
 
 /// Site key of a panic: `<file relative to the repo>::<enclosing fn>#<message class>`.
 pub fn panic_site(p: &PanicInfo) -> String {
-    let rel = p.file.strip_prefix("/repo/").unwrap_or(&p.file);
+    let root = format!("{}/", repo_root());
+    let rel = p.file.strip_prefix(root.as_str()).unwrap_or(&p.file);
     if p.file.is_empty() {
         return "unknown".to_string();
     }
-    let f = if rel.starts_with("src/") || p.file.starts_with("/repo/") { enclosing_fn(&p.file, p.line) } else { "-".to_string() };
+    let f = if rel.starts_with("src/") || p.file.starts_with(root.as_str()) { enclosing_fn(&p.file, p.line) } else { "-".to_string() };
     // panics raised inside std / dependencies: keep only the crate-ish part of the path
     let rel = if rel.starts_with('/') {
         let parts: Vec<&str> = rel.split('/').collect();
@@ -146,6 +147,11 @@ pub fn panic_site(p: &PanicInfo) -> String {
         rel.to_string()
     };
     format!("{}::{}#{}", rel, f, msg_class(&p.msg))
+}
+
+/// Root of the engine source tree the harness was built against (/repo unless VERIF_REPO redirects an experiment).
+pub fn repo_root() -> String {
+    std::env::var("VERIF_REPO").unwrap_or_else(|_| "/repo".to_string()).trim_end_matches('/').to_string()
 }
 
 pub fn rng(seed: u64, stream: u64) -> StdRng {
